@@ -551,6 +551,9 @@ func (fr *Frame) instr(in ssa.Instruction) {
 		loc := &Loc{Kind: LRef, Base: ref, Root: el, T: el}
 		fr.writeLoc(loc, zeroVal(el))
 		fr.vals[i] = &SVal{T: i.Type(), Term: ref}
+		if !i.Heap {
+			fr.locals = append(fr.locals, localAlloc{ref, el})
+		}
 	case *ssa.BinOp:
 		fr.vals[i] = fr.binop(i.Op, fr.val(i.X), fr.val(i.Y), i.Type(), i)
 	case *ssa.UnOp:
@@ -749,7 +752,7 @@ func (fr *Frame) unop(i *ssa.UnOp) {
 func (fr *Frame) loadGlobal(g *ssa.Global) *SVal {
 	x := fr.x
 	t := g.Type().(*types.Pointer).Elem()
-	if kindOf(t) == KIface && types.Identical(t, types.Universe.Lookup("error").Type()) && x.w.isSentinel(g) {
+	if kindOf(t) == KIface && x.w.isSentinel(g) {
 		name := "err:" + shortPkg(g.Pkg.Pkg.Path()) + "." + g.Name()
 		first := x.em.declared[sym(name)] == ""
 		c := x.em.Const(name, "Int")
@@ -866,7 +869,11 @@ func (fr *Frame) slice(i *ssa.Slice) {
 			name := "HA:" + typeKey(a.Elem())
 			hs := heapSort(LElem, sortOf(a.Elem()))
 			fr.heapSet(name, hs, sStore(x.heapGet(fr.cur, name, hs), arr, cur.Term))
-			x.trust("slice of an embedded array modelled as a read-only snapshot: " + typeKey(loc.Root))
+			if x.snap == nil {
+				x.snap = map[string]*Loc{}
+			}
+			x.snap[arr] = loc
+			x.trust("slice of an embedded array modelled as a snapshot (copy() into it is written back; other aliasing is not): " + typeKey(loc.Root))
 		}
 		fr.vals[i] = &SVal{T: i.Type(), F: []*SVal{leaf(intType, arr), leaf(intType, lo),
 			leaf(intType, x.em.Def("len", "Int", sSub(hi, lo))), leaf(intType, x.em.Def("cap", "Int", sSub(mx, lo)))}}
@@ -916,12 +923,27 @@ func (fr *Frame) makeInterface(v *SVal, it types.Type) *SVal {
 			if l.Loc.Kind == LRef && len(l.Loc.Path) == 0 {
 				t = l.Loc.Base
 			} else {
-				panic(unsupported("interior pointer stored in interface"))
+				// interior pointer: an opaque token; the static location travels with the value
+				// so that contracts can say `modifies pointee(x)`
+				t = x.em.Fresh("interior", "Int")
+				x.em.Assert(sLt("0", t))
 			}
 		}
 		sorts = append(sorts, sortOf(l.T))
 		args = append(args, t)
 	}
+	var keepLoc *Loc
+	if kindOf(v.T) == KPtr && v.F == nil {
+		if v.Loc != nil {
+			keepLoc = v.Loc
+		} else if pt, ok := v.T.Underlying().(*types.Pointer); ok {
+			keepLoc = &Loc{Kind: LRef, Base: v.Term, Root: pt.Elem(), T: pt.Elem()}
+		}
+	}
+	defer func() {
+		// (set after the value is built below)
+	}()
+	_ = keepLoc
 	f := x.em.Func("mkiface:"+tk, sorts, "Int")
 	r := x.em.Def("iface", "Int", sApp(f, args...))
 	x.em.Assert(sAnd(sLt("0", r), sEq("(typetag "+r+")", x.typeTag(v.T))))
@@ -929,7 +951,9 @@ func (fr *Frame) makeInterface(v *SVal, it types.Type) *SVal {
 		u := x.em.Func(fmt.Sprintf("unmk:%s:%d", tk, k), []string{"Int"}, sortOf(l.T))
 		x.em.Assert(sEq(sApp(u, r), args[k]))
 	}
-	return leaf(it, r)
+	res := leaf(it, r)
+	res.Pointee = keepLoc
+	return res
 }
 
 func (fr *Frame) unmakeInterface(term string, t types.Type) *SVal {
